@@ -23,6 +23,8 @@ def run(chk):
     items = eg.collect(chk, ["waits"], paths_q=4, paths_t=10, walks_q=1, walks_t=5)
     # a retry that waits in the queue of a saturated step before it runs (its retry number travels with the queue entry)
     items += eg.collect(chk, ["waits_queue"], paths_q=40, paths_t=300, walks_q=10, walks_t=60, depth=18)
+    # two wake-ups of one run a few milliseconds apart (another step's retry is due just before this step's)
+    items += eg.collect(chk, ["waits_close"], paths_q=30, paths_t=200, walks_q=8, walks_t=40, depth=16)
     eg.standard_run(chk, "C06", None, {"step_start", "step_end"}, key_of=key_of, items=items,
-                    extra=lambda prog, tr: {"step": "b"}, keep=keep,
-                    nontrivial=lambda tr: sum(1 for r in tr if r["e"] == "step_start" and r["step"] == "b" and r["retry"] >= 1) >= 2)
+                    extra=lambda prog, tr: {"step": prog.get("obs_step", "b")}, keep=keep,
+                    nontrivial=lambda tr: sum(1 for r in tr if r["e"] == "step_start" and r["step"] in ("b", "c") and r["retry"] >= 1) >= 2)
